@@ -24,7 +24,7 @@ import sys
 import tempfile
 import time
 
-FILES = ["f1", "f2", "d1/f3"]
+FILES = ["f1", "f2", "d1/f3", "a:b", " sp ace:x "]
 FOLDERS = ["d1", "d2"]
 UNIVERSE = FILES + FOLDERS
 
@@ -84,8 +84,9 @@ def client_loop(cid, cmd_fd, ack_fd, root, errp):
         if op == "exit":
             ack("bye")
             return
-        path = os.path.join(root, parts[1])
-        rtype = rtype_of(parts[1])
+        res = bytes.fromhex(parts[1]).decode() if parts[1] != "-" else "-"
+        path = os.path.join(root, res)
+        rtype = rtype_of(res)
         if op == "reg":
             rt.register(path, rtype)
         elif op == "unl":
@@ -237,7 +238,7 @@ def run_scenario(sc, scratch):
                 out["obs"].append({"op": [c, op, None], "exists": exists_vec(root), "alive": sorted(alive),
                                    "tracker_running": not proc_gone(out["tracker_pid"])})
                 continue
-            send(c, "%s %s" % (op, res))
+            send(c, "%s %s" % (op, res.encode().hex()))
             m = acks.get()
             if not m or m[1] != "ok":
                 out["flags"].append("op-failed:%s" % (m,))
